@@ -18,6 +18,7 @@ A unit template (vf/units/<unit>.rs) is ordinary Verus text plus directive lines
   //@ BODYONLY                       emit only the statements of the body (for R7 block lifts,
   //@                                together with FROM/TO anchors)
   //@ FROM / //@ ENDFROM, //@ TO / //@ ENDTO    first / last statement anchors of a block lift
+  //@ CLOSUREBODY .method            R7: emit only the body of the one closure passed to `.method(|..| BODY)` in this function
   //@ TOSTMT                         instead of TO: the block is the single statement that begins with the FROM tokens
   //@ STRIPATTRS                     (default for all items) remove #[..] attributes and docs (R1)
   //@END
@@ -287,6 +288,8 @@ class Extractor:
                 d["to_close"] = True
             elif k == "TOSTMT":
                 d["to_stmt"] = True
+            elif k == "CLOSUREBODY":
+                d["closurebody"] = " ".join(w[1:])
             else:
                 raise UnitError("unknown directive %r" % s)
             i += 1
@@ -876,7 +879,7 @@ class Extractor:
             l2 = src.text.count("\n", 0, toks[ht[0]].start) + 1
             self.lifts.append("%s:%d-%d %s block replaced by `%s`" % (rel, l1, l2, rule, " ".join(newtxt.split())[:80]))
 
-        self._last_bodyonly = bool(d["bodyonly"] or d["frm"] is not None)
+        self._last_bodyonly = bool(d["bodyonly"] or d["frm"] is not None or d.get("closurebody"))
         if kind == "fn" and name in self.stub and not self._last_bodyonly and body_lo is not None:
             # retry mode: this function could not be translated; keep its signature and contract, drop its body
             s0, s1 = toks[body_lo].start - base, toks[body_hi].end - base
@@ -1099,7 +1102,30 @@ class Extractor:
 
         # block lifting: keep only [FROM .. TO] statements of the body
         cut_lo = cut_hi = None
-        if d["frm"] is not None or d["bodyonly"]:
+        if d.get("closurebody"):
+            # R7 (closure lift): the body of the one closure passed to `.METHOD(|..| BODY)` in this function becomes the body of a
+            # wrapper function written in the template (its parameters are the closure's parameter and the captured variables)
+            meth = d["closurebody"].lstrip(".")
+            hits = [q for q in range(body_lo, body_hi - 3) if toks[q].text == "." and toks[q + 1].text == meth and toks[q + 2].text == "(" and toks[q + 3].text in ("|", "move")]
+            if len(hits) != 1:
+                raise LostAnchor("%s: CLOSUREBODY: `.%s(|..| ..)` found %d times in %s" % (rel, meth, len(hits), name))
+            op = hits[0] + 2
+            cl = src.tbl[op]
+            q = op + 1
+            if toks[q].text == "move":
+                q += 1
+            q += 1
+            while toks[q].text != "|":
+                q += 1
+            b0, b1 = q + 1, cl - 1
+            if toks[b0].text == "{" and src.tbl.get(b0) == b1:
+                b0, b1 = b0 + 1, b1 - 1
+            cut_lo = toks[b0].start - base
+            cut_hi = toks[b1].end - base
+            bump("R7")
+            l1 = src.text.count("\n", 0, toks[b0].start) + 1
+            self.lifts.append("%s:%d R7 body of the closure passed to `.%s(..)` in fn %s lifted into its own function" % (rel, l1, meth, name))
+        elif d["frm"] is not None or d["bodyonly"]:
             if d["frm"] is not None:
                 wf = token_texts(d["frm"])
                 hf = find_seq(toks, wf, body_lo, body_hi)
